@@ -385,13 +385,16 @@ class TorchShim:
     """Module-namespace proxy for `torch`: everything passes through except save() (and, when a
     recorder is attached, the random draws)."""
 
-    def __init__(self):
+    def __init__(self, io=True):
         self.recorder = None
+        self.io = io
 
     def __getattr__(self, k):
         return getattr(real_torch, k)
 
     def save(self, obj, path, *a, **kw):
+        if not self.io:
+            return real_torch.save(obj, path, *a, **kw)
         Sim.ev("ckpt.save.begin", "")
         f = CkRaw(path)
         try:
@@ -413,12 +416,15 @@ class TorchShim:
         return r
 
 
-def install(io_seam=True, line_clock=False, track_steps=True):
+def install(io_seam=True, line_clock=False, track_steps=True, rng_seam=False):
     """Patch the MD module namespaces. Must be called in the child, after fork."""
     import seqm.MolecularDynamics as MDm
     import seqm.NonadiabaticDynamics as NDm
 
-    tshim = TorchShim()
+    tshim = TorchShim(io=io_seam)
+    if rng_seam:
+        MDm.torch = tshim
+        NDm.torch = tshim
     if io_seam:
         MDm.h5py = H5Shim
         MDm.open = open_shim
